@@ -78,7 +78,14 @@ def run_c07(res, rng):
     for i, (mn, mx) in enumerate([(0, 25), (64, 1500), (100, 100), (0, 65559)]):
         cases.append(G.enc_case('wfempty%d' % i, 3, 1, [], mn, mx, decode=False))
     # C07 is a relation on the implementation's frames: the judge is the independent walker; the model's frames are compared byte for byte
-    correspondence(res, cases, proj_f, G.judge_c07, 'frame well-formedness')
+    def proj(c, lines):
+        # what C07 talks about: frame sizes, message tiling, padding, payload bytes in order (not flags, counters or ids)
+        out = []
+        for f in G.frames_of(lines):
+            h, msgs, rest = parse_frame(f)
+            out.append((len(f), tuple(m['plen'] for m in msgs), len(rest), any(rest), b''.join(m['payload'] for m in msgs)))
+        return out + anomalies(lines)
+    correspondence(res, cases, proj, G.judge_c07, 'frame well-formedness')
     res.cov['rule'] = 'as C01 plus empty batches; judge = independent frame walker (lib/common.py parse_frame) on the implementation\'s frames: size bounds, header, >=1 message, tiling, zero padding exactly to min, payload bytes once and in order; non-trivial as C01'
     res.cov['distinct_nontrivial'] = nontrivial(cases)
     res.cov['input_distribution'] = dist_stats(cases)
